@@ -10,16 +10,21 @@ from props import c05
 LEVEL = "model_checking"
 TRACE_MODULE = "CrossCfg"
 
-BASE = ("base-cxx17-O1", [], "g++", "-O1")
+BASE = ("base-cxx17-O0", [], "g++", "-O0")
 QUICK_VARIANTS = [
-    ("CXX98", ["-DGLM_FORCE_CXX98"], "g++", "-O1"),
+    ("CXX98", ["-DGLM_FORCE_CXX98"], "g++", "-O0"),
+    ("CXX11+INLINE+CTOR_INIT+EXPLICIT_CTOR+UNRESTRICTED+WXYZ+XYZW_ONLY+SIZE_T_LENGTH+UNKNOWN", ["-DGLM_FORCE_CXX11", "-DGLM_FORCE_INLINE", "-DGLM_FORCE_CTOR_INIT", "-DGLM_FORCE_EXPLICIT_CTOR",
+      "-DGLM_FORCE_UNRESTRICTED_GENTYPE", "-DGLM_FORCE_QUAT_DATA_WXYZ", "-DGLM_FORCE_XYZW_ONLY", "-DGLM_FORCE_SIZE_T_LENGTH", "-DGLM_FORCE_COMPILER_UNKNOWN", "-DGLM_FORCE_PLATFORM_UNKNOWN",
+      "-DGLM_FORCE_ARCH_UNKNOWN", "-DGLM_FORCE_ALIGNED_GENTYPES"], "g++", "-O0"),
+    ("O3", [], "g++", "-O3"),
+    ("clang-O2", [], "clang++", "-O2"),
+]
+MORE_VARIANTS = [
     ("CXX11+INLINE+CTOR_INIT+EXPLICIT_CTOR+UNRESTRICTED", ["-DGLM_FORCE_CXX11", "-DGLM_FORCE_INLINE", "-DGLM_FORCE_CTOR_INIT", "-DGLM_FORCE_EXPLICIT_CTOR", "-DGLM_FORCE_UNRESTRICTED_GENTYPE"], "g++", "-O1"),
     ("WXYZ+XYZW_ONLY+SIZE_T_LENGTH", ["-DGLM_FORCE_QUAT_DATA_WXYZ", "-DGLM_FORCE_XYZW_ONLY", "-DGLM_FORCE_SIZE_T_LENGTH"], "g++", "-O1"),
     ("UNKNOWN-compiler-platform-arch+ALIGNED_GENTYPES", ["-DGLM_FORCE_COMPILER_UNKNOWN", "-DGLM_FORCE_PLATFORM_UNKNOWN", "-DGLM_FORCE_ARCH_UNKNOWN", "-DGLM_FORCE_ALIGNED_GENTYPES"], "g++", "-O1"),
-    ("O3", [], "g++", "-O3"),
-    ("clang-O0", [], "clang++", "-O0"),
 ]
-THOROUGH_VARIANTS = QUICK_VARIANTS + [
+THOROUGH_VARIANTS = QUICK_VARIANTS + MORE_VARIANTS + [
     ("CXX03", ["-DGLM_FORCE_CXX03"], "g++", "-O1"), ("CXX14", ["-DGLM_FORCE_CXX14"], "g++", "-O1"), ("CXX17", ["-DGLM_FORCE_CXX17"], "g++", "-O1"),
     ("CXX20", ["-DGLM_FORCE_CXX20"], "g++", "-O1"), ("INLINE", ["-DGLM_FORCE_INLINE"], "g++", "-O2"), ("EXPLICIT_CTOR", ["-DGLM_FORCE_EXPLICIT_CTOR"], "g++", "-O1"),
     ("CTOR_INIT", ["-DGLM_FORCE_CTOR_INIT"], "g++", "-O1"), ("SIZE_T_LENGTH", ["-DGLM_FORCE_SIZE_T_LENGTH"], "g++", "-O1"), ("XYZW_ONLY", ["-DGLM_FORCE_XYZW_ONLY"], "g++", "-O1"),
@@ -35,18 +40,30 @@ THOROUGH_VARIANTS = QUICK_VARIANTS + [
 def harnesses(ctx, pairs):
     hs = [("c11", "c11.cpp", lambda tr: [tr, "quick"]), ("c14", "c14.cpp", lambda tr: [tr, "events", "quick"]),
           ("c05", "c05.cpp", lambda tr: [tr, pairs, "quick"]), ("c02", "c02.cpp", lambda tr: [tr, "quick"]),
-          ("c01", "c01.cpp", lambda tr: [tr, "quick"])]
+          ("c01", "c01.cpp", lambda tr: [tr, "small" if ctx.quick else "quick"])]
     if not ctx.quick:
         hs += [("c18", "c18.cpp", lambda tr: [tr, pairs, "quick"]), ("c06", "c06.cpp", lambda tr: [tr, "quick"])]
     return hs
 
 
-def cross_validate(ctx, base_path, var_path, label):
+def cross_validate(ctx, base_path, var_path, label, kind="std"):
     """E6: pair the two traces chunk by chunk (same round-robin dealing) and let CrossCfg.tla compare them."""
     with open(base_path, "rb") as f:
-        A = f.readlines()
+        A0 = f.readlines()
     with open(var_path, "rb") as f:
-        Bv = f.readlines()
+        B0 = f.readlines()
+    total = len(A0)
+    if len(A0) != len(B0):
+        rp = ctx.write_replay("crosscfg-length-" + label, [], "baseline has %d events, variant %d" % (len(A0), len(B0)))
+        ctx.violation("the %s build logged %d events, the baseline %d: not the same program" % (label, len(B0), len(A0)), rp)
+        return 1
+    # textually identical event pairs are identical events; TLC judges every pair that differs (is the difference one that
+    # IEEE-754 leaves open / a recorded deviation?) plus a 1-in-64 sample of the identical ones
+    idx = [i for i in range(total) if A0[i] != B0[i] or i % 64 == 0]
+    A = [A0[i] for i in idx]
+    Bv = [B0[i] for i in idx]
+    ctx.extra["crosscfg_pairs_identical_text"] = ctx.extra.get("crosscfg_pairs_identical_text", 0) + (total - sum(1 for i in idx if A0[i] != B0[i]))
+    ctx.extra["crosscfg_pairs_judged_by_tlc"] = ctx.extra.get("crosscfg_pairs_judged_by_tlc", 0) + len(idx)
     n = max(len(A), len(Bv))
     k = max(1, min(vlib.NCPU, (n + 19999) // 20000))
     jobs = []
@@ -60,7 +77,7 @@ def cross_validate(ctx, base_path, var_path, label):
 
     def one(j):
         pa, pb, i = j
-        return j, vlib.tlc("CrossCfg", env={"TRACE": pa, "TRACE_B": pb}, workers=1, timeout=900, scratch=ctx.scratch)
+        return j, vlib.tlc("CrossCfg", env={"TRACE": pa, "TRACE_B": pb, "KIND": kind}, workers=1, timeout=900, scratch=ctx.scratch)
     events = bad = 0
     for (pa, pb, i), r in vlib.pmap(one, jobs):
         s = r.printed("SUMMARY")
@@ -71,6 +88,13 @@ def cross_validate(ctx, base_path, var_path, label):
         m = re.match(r'<<"SUMMARY", (\d+), (\d+)', s[-1])
         events += int(m.group(1)); nb = int(m.group(2)); bad += nb
         ctx.states += r.distinct; ctx.transitions += r.generated; ctx.traces += 1
+        for kl in r.printed("KNOWN"):
+            mk = re.match(r'<<"KNOWN", "([^"]+)", (\d+)', kl)
+            if mk:
+                kid = mk.group(1)
+                ctx.known_hit[kid] = ctx.known_hit.get(kid, 0) + 1
+                if kid not in ctx.known:
+                    ctx.violation("deviation %s observed but not listed as a known finding" % kid, ctx.write_replay("unlisted-" + kid, [], kl))
         if nb:
             with open(pa, errors="replace") as f:
                 la = f.readlines()
@@ -89,8 +113,8 @@ def cross_validate(ctx, base_path, var_path, label):
             except OSError:
                 pass
     ctx.events += events
-    ctx.evaluations += events
-    vlib.log("[crosscfg] %s: %d events compared, %d differ" % (label, events, bad))
+    ctx.evaluations += total
+    vlib.log("[crosscfg] %s: %d events compared (%d pairs judged by TLC), %d differ" % (label, total, events, bad))
     return bad
 
 
@@ -143,7 +167,8 @@ def run(ctx):
         for (lab, flags, cxx, opt) in variants:
             tr = traces.get((lab, hn))
             if tr:
-                cross_validate(ctx, base, tr, "%s-%s" % (hn, lab))
+                fallback = any(f in ("-DGLM_FORCE_CXX98", "-DGLM_FORCE_CXX03") for f in flags)
+                cross_validate(ctx, base, tr, "%s-%s" % (hn, lab), "fallback" if fallback else "std")
                 os.remove(tr)
     ctx.rule("the op-table harnesses of C01, C02, C05, C11, C14 (+ C06, C18 thorough) compiled under a baseline (g++ -std=c++17 -O1) and %d variant "
              "configurations (language levels, the non-semantic GLM_FORCE_* macros alone and combined, -O0/-O2/-O3, clang++); every variant "
